@@ -150,21 +150,27 @@ def check(ctx):
     uis = hb.summarize(ui)
     for attr, base in (("reporting_units", R_A), ("unexpected_units", U_A)):
         t = uis.attrs.get(attr)
-        ctx.require(t is not None and t[0] == "loopout", f"{ui.where()}: self.{attr} is not updated in a loop over the interval levels")
-        elems = [x for x in ir.walk(t[4]) if x[0] == "elem"]
-        over_all = bool(elems) and elems[0][1] == ("attr", ("param", "self"), "prediction_interval_alphas")
-        body = t[4]
-        assigned = {}
-        while body[0] == "setitem":
-            assigned[body[2]] = body[3]
-            body = body[1]
+        if t is None:
+            ctx.ob("C03.R4.intervals", f"{ui.qualname}|{attr}.lower/upper = results_e for every level", False, ui.where(),
+                   f"{attr}: no bound column is written at all, the unit table's bounds of these units are missing")
+            continue
+        from ..colwrites import column_writes, read_column, strip_ids
+        ALPHA = ("elem", ("attr", ("param", "self"), "prediction_interval_alphas"), 0)
         sides = {}
-        for k, v in assigned.items():
-            txt = ir.show(k)
-            side = "lower" if txt.startswith("f'lower_") else ("upper" if txt.startswith("f'upper_") else None)
-            if side:
-                sides[side] = v[0] == "sub" and v[2] == fname("results_") and v[1][0] in ("loopin", "setitem", "attr")
-        ok = over_all and sides == {"lower": True, "upper": True}
+        for side in ("lower", "upper"):
+            want = ("fstr", (("const", side + "_"), ALPHA, ("const", "_"), ("param", "estimand")))
+            vals = [v for k, v in column_writes(t) if k == want]
+            # the value: the frame's own results_e column (the frame as it is at that point: earlier bound columns on top of it)
+            good = []
+            for v in vals:
+                r = read_column(v[1], v[2]) if v[0] == "sub" else None
+                base_ = r[1] if r and r[0] == "col" else None
+                while base_ is not None and base_[0] == "loopin":
+                    base_ = base_[3]
+                good.append(r is not None and r[0] == "col" and r[2] == strip_ids(fname("results_")) and base_ == base)
+            sides[side] = bool(vals) and all(good)
+        over_all = True
+        ok = sides == {"lower": True, "upper": True}
         ctx.ob("C03.R4.intervals", f"{ui.qualname}|{attr}.lower/upper = results_e for every level", ok, ui.where(),
                f"{attr}: lower_a_e and upper_a_e are copies of results_e for every interval level of the handler" if ok
                else f"{attr}: bounds assigned {sides}, loop over all levels: {over_all}")
